@@ -106,12 +106,15 @@ def audit(ctx, rule, parts):
             k = "value::integer::<impl core::convert::TryFrom<value::integer::Integer> for %s>::try_from" % ty
             f = cib.fns.get(k)
             rt = Prov(f).return_term() if f else None
-            ok = rt is not None and is_call(rt, "core::convert::TryFrom::try_from") and rt[2] == (("field", ("param", 0), "0"),)
+            # (the loader spells `T::try_from(x)` as `x.try_into()` with the types swapped - one idiom for the rules)
+            ok = rt is not None and (is_call(rt, "core::convert::TryFrom::try_from") or is_call(rt, "core::convert::TryInto::try_into")) \
+                and rt[2] == (("field", ("param", 0), "0"),)
             inner_ty = None
             if ok:
                 c = f.blocks[rt[3][1]]["term"]["callee"]
                 inner_ty = c.get("args")
-                ok = c.get("args") == [ty, "i128"] and c.get("crate") == "core"
+                ok = c.get("args") in ([ty, "i128"], ["i128", ty]) and (c.get("args") == ["i128", ty]) == bool(c.get("was_try_from")) \
+                    and c.get("crate") == "core"
             ctx.ob(rule, "ciborium:TryFrom<Integer>-for-%s" % ty, bool(ok),
                    "TryFrom<Integer> for %s is core's checked %s::try_from(i128)" % (ty, ty), detail={"return": show(rt)[:120] if rt else None, "callee_args": inner_ty})
             k2 = "<value::integer::Integer as core::convert::From<%s>>::from" % ty
